@@ -686,7 +686,9 @@ class Interp:
         m = re.fullmatch(r'\{alloc\d+: &(.*)\}', c)
         if m: return self.static_ref(m.group(1))
         m = re.fullmatch(r'ZeroSized: (\{closure@.*\})', c)
-        if m: return Closure(self.closures[m.group(1)], [])
+        if m:
+            cl = Closure(self.closures[m.group(1)], []); cl.ty = dict((frame or {}).get('__ty') or {}) if isinstance(frame, dict) else {}
+            return cl
         m = re.fullmatch(r'ZeroSized: (.*)', c)
         if m: return FnItem(m.group(1))
         if c in self.mir.inline_consts: return self.operand(c_operand(self.mir.inline_consts[c]), frame)
@@ -784,7 +786,8 @@ class Interp:
                     parts = parts + [x if x.startswith(('move ', 'copy ')) else 'copy ' + x for x in cand[len(parts):]]
                     break
             caps = [self.operand(c_operand(x), frame) for x in parts]
-            return Closure(self.closures[r[1]], caps)
+            cl = Closure(self.closures[r[1]], caps); cl.ty = dict(frame.get('__ty') or {})   # a closure of a generic fn sees the fn's type arguments
+            return cl
         if k == 'adt':
             fields = [self.operand(x, frame) for x in r[2]]
             vi = self.variant_index(r[1])
@@ -1012,7 +1015,7 @@ class Interp:
         if isinstance(clo, Ref): clo = deref_all(clo)
         f = self.fns[clo.fn]
         byref = f.param_types[0].startswith('&')
-        return self.exec_fn(f, [Ref(Box_(clo)) if byref else clo] + list(args))
+        return self.exec_fn(f, [Ref(Box_(clo)) if byref else clo] + list(args), getattr(clo, 'ty', None) or None)
     def lazy_static(self, name):
         """value behind a lazy_static!: bodies of one module share a name, so initialisers are bound to their static
         through the `&NAME` parameter of the matching `deref` body (same file order)"""
